@@ -939,6 +939,10 @@ pub fn suite_threads(out: &mut Out, tier: &str, rng: &mut Rng) {
                 }
             }
         }
+        for _ in 0..6 {
+            let w = (rng.next() as u16 & 0xd30f) | (*rng.pick(&[0u16, 0x10, 0x20, 0x20, 0x30]));
+            calls.push(json!({"op": "decode_opts", "in": bytes_json(&tail_for(w, rng)), "id": 0}));
+        }
         out.emit(json!({"op": "threads", "n": 16, "rounds": 2, "calls": calls}));
     }
 }
@@ -1125,6 +1129,12 @@ pub fn suite_history(out: &mut Out, tier: &str, rng: &mut Rng) {
                     calls.push(json!({"op": "roundtrip", "kind": "msg", "v": m, "id": 0}));
                 }
             }
+        }
+        // the same octets under every option set, back to back (a result must not depend on what
+        // an earlier call with other options accepted)
+        for _ in 0..12 {
+            let w = (rng.next() as u16 & 0xd30f) | (*rng.pick(&[0u16, 0x10, 0x20, 0x20, 0x30]));
+            calls.push(json!({"op": "decode_opts", "in": bytes_json(&tail_for(w, rng)), "id": 0}));
         }
         out.emit(json!({"op": "threads", "n": 1, "rounds": 3, "calls": calls}));
     }
